@@ -182,7 +182,21 @@ func runC03Seen(c *Ctx) {
 			okSeen := false
 			for _, r := range refs(seenParam) {
 				lk, ok := r.(*ssa.Lookup)
-				if !ok || !lk.CommaOk {
+				if !ok {
+					continue
+				}
+				// membership: the comma-ok result, or — for a set kept as map[K]bool — the value itself
+				// (the walkers only ever store true: checked with the walkers below)
+				var members []ssa.Value
+				if lk.CommaOk {
+					for _, rr := range refs(lk) {
+						if ex, ok := rr.(*ssa.Extract); ok && ex.Index == 1 {
+							members = append(members, ex)
+						}
+					}
+				} else if bt, ok := lk.Type().Underlying().(*types.Basic); ok && bt.Kind() == types.Bool {
+					members = append(members, lk)
+				} else {
 					continue
 				}
 				// key of the lookup is the range key
@@ -190,13 +204,9 @@ func runC03Seen(c *Ctx) {
 					bad = append(bad, "seen-set consulted with something other than the rule map's current key")
 					continue
 				}
-				for _, rr := range refs(lk) {
-					ex, ok := rr.(*ssa.Extract)
-					if !ok || ex.Index != 1 {
-						continue
-					}
-					// the `ok` must lead (possibly through || with key=="") to skipping: find the If using it
-					for _, r3 := range refs(ex) {
+				for _, mem := range members {
+					// the membership must lead (possibly through || with key=="") to skipping: find the If using it
+					for _, r3 := range refs(mem) {
 						if iff, ok := r3.(*ssa.If); ok {
 							// true edge must not reach a clause write without passing the loop header
 							if reachesWriteBeforeHeader(iff.Block().Succs[0], reporter) {
@@ -316,6 +326,14 @@ func runC03Seen(c *Ctx) {
 				for _, l := range naturalLoops(fn) {
 					if l.Body[upd.Block()] && (loop == nil || len(l.Body) > len(loop.Body)) {
 						loop = l // outermost loop containing the update: the loop over the input's entries
+					}
+				}
+			}
+			// a set kept as map[K]bool records a key by storing true (the reporter reads the value)
+			if upd != nil {
+				if bt, ok := upd.Value.Type().Underlying().(*types.Basic); ok && bt.Kind() == types.Bool {
+					if b, known := constBool(upd.Value); !known || !b {
+						bad = append(bad, "a key is recorded in the seen set with a value other than true")
 					}
 				}
 			}
